@@ -234,6 +234,15 @@ def c02(res, tier, seed, replay):
             return True
         return False
     binding_selftest(res, results, mut, what="one id dropped from a filter answer")
+
+    def mut_inv(e):
+        # a node that stays in the persisted set of a value no stored document has any more
+        if e["ev"] == "InvIx" and e["ents"] and e["ents"][0]["ids"]:
+            e["ents"][0]["ids"] = sorted(e["ents"][0]["ids"] + [max(e["ents"][0]["ids"]) + 40])
+            return True
+        return False
+    binding_selftest(res, [r for r in results if "mem" not in r["run"]["name"]], mut_inv,
+                     what="a stale node id added to the logged persisted set of an inverted index")
     res.coverage["rule"] = ("the full operator x ladder/pool-value panel (equals..inRange, startsWith, containsAll/Any, _id; "
                             "14 int64 / 15 float64 / 17 string boundary values incl. min/max int64, -0.0, subnormals, +-Inf, "
                             "empty / non-ASCII / case-variant / prefix-related strings) plus random _and/_or trees of depth <= 3 "
